@@ -54,7 +54,7 @@ func fpBool(b bool) string { return fmt.Sprint(b) }
 
 // 0: the call is not under any condition mentioning Dry; 1: it is inside an
 // if whose condition mentions Dry (negated); 99: call not found.
-func fpGuardedByDry(body *ast.BlockStmt, callee string) int {
+func fpGuardedBy(body *ast.BlockStmt, callee, needle string) int {
 	code := 99
 	var walk func(n ast.Node, guarded bool)
 	walk = func(n ast.Node, guarded bool) {
@@ -63,7 +63,7 @@ func fpGuardedByDry(body *ast.BlockStmt, callee string) int {
 		}
 		switch t := n.(type) {
 		case *ast.IfStmt:
-			g := guarded || strings.Contains(exprStr(t.Cond), "Dry")
+			g := guarded || strings.Contains(exprStr(t.Cond), needle)
 			if t.Init != nil {
 				walk(t.Init, g)
 			}
@@ -189,11 +189,43 @@ func factsFp(repo string, o *out) {
 	o.def("fp_cmd_error_rolls_back", "bool", fpBool(cmdErrRB))
 	mk := 99
 	if rt != nil {
-		mk = fpGuardedByDry(rt.Body, "mkdir")
+		mk = fpGuardedBy(rt.Body, "mkdir", "Dry")
 	}
 	o.def("fp_mkdir_dry_code", "nat", fmt.Sprint(mk))
-	// does RunTask record anything itself after the command loop (a restructured, record-after-success design)
-	o.def("fp_runtask_records", "bool", fpBool(fpHasCall(body(rt), "statusOnSuccess") || fpHasCall(body(rt), "OnSuccess")))
+	// does RunTask record the fingerprint itself after the command loop (record-after-success design)?
+	// 0: no; 1: only for forced runs (call under a condition on skipFingerprinting); 2: for every successful attempt
+	rec := 99
+	if rt != nil {
+		switch fpGuardedBy(rt.Body, "statusOnSuccess", "skipFingerprinting") {
+		case 99:
+			rec = 0
+		case 1:
+			rec = 1
+		case 0:
+			rec = 2
+		}
+	}
+	o.def("fp_success_record_code", "nat", fmt.Sprint(rec))
+	// is the record dropped when an attempt starts: a statusOnError call outside the prompt and command loops
+	invFirst := false
+	if rt != nil {
+		var walk func(n ast.Node)
+		walk = func(n ast.Node) {
+			ast.Inspect(n, func(x ast.Node) bool {
+				if rs, ok := x.(*ast.RangeStmt); ok {
+					if e := exprStr(rs.X); e == "t.Prompt" || e == "t.Cmds" {
+						return false
+					}
+				}
+				if ce, ok := x.(*ast.CallExpr); ok && strings.HasSuffix(exprStr(ce.Fun), "statusOnError") {
+					invFirst = true
+				}
+				return true
+			})
+		}
+		walk(rt.Body)
+	}
+	o.def("fp_invalidate_first", "bool", fpBool(invFirst))
 	// force skips the fingerprint block
 	skipExpr := "?"
 	if rt != nil {
@@ -216,6 +248,14 @@ func factsFp(repo string, o *out) {
 		wiring = wargs[0]
 	}
 	o.def("fp_dry_wiring", "string", "\""+wiring+"\"")
+	// normalizeFilename: a single ReplaceAllString (not injective)
+	plain := false
+	if nf := fp.funcDecl("", "normalizeFilename"); nf != nil && nf.Body != nil && len(nf.Body.List) == 1 {
+		if rs, ok := nf.Body.List[0].(*ast.ReturnStmt); ok && len(rs.Results) == 1 && fpHasCall(rs.Results[0], "ReplaceAllString") {
+			plain = true
+		}
+	}
+	o.def("fp_normalize_plain", "bool", fpBool(plain))
 	o.def("fp_functions_found", "bool", fpBool(known))
 }
 
